@@ -25,7 +25,7 @@ ASSUMPTIONS = ['non-interactive backends only (Agg, svg, pdf - one per worker pr
                'reference-METAR strings restricted to characters matplotlib mathtext renders literally']
 UPTOS = ['raw_data', 'slices', 'groups', 'layers']
 REQUIRED = ['upto:' + u for u in UPTOS] + ['show_ceilos_gt10_ceilos', 'gt8_layers', 'gt10_slices', 'vv_hits', 'vv_raw_noceilos',
-            'no_hits', 'single_hit', 'zero_okta_layer', 'two_formats', 'msa_with_dropped_rows', 'ref_metar', 'default_format', 'dotted_stem', 'backend:agg', 'backend:svg', 'backend:pdf']
+            'no_hits', 'single_hit', 'zero_okta_layer', 'two_formats', 'msa_with_dropped_rows', 'ref_metar', 'default_format', 'dotted_stem', 'backend:agg', 'backend:svg', 'backend:pdf', 'show_true']
 SIZES = {'quick': 60, 'thorough': 1200}     # chunks; ~4 plots each
 FAMS = ['generic', 'many_ceilos', 'many_layers', 'many_slices', 'vv', 'no_hits', 'single_hit', 'zero_okta', 'msa_drop', 'generic']
 
@@ -211,6 +211,15 @@ def check(desc):
                     res['nontrivial'].append(obs.case_hash(pipeline.case_digest(case), upto, show_ceilos, ref, origin, str(fmts)))
                 if len(viol) >= 6:
                     break
+            # show=True: nothing may be raised either (non-interactive backends only warn); the figure then stays open
+            if len(viol) == 0:
+                try:
+                    diagnostic(ch, upto=order[0][0], show_ceilos=order[0][1], show=True)
+                    tags.add('show_true')
+                    res['evals'] += 1
+                except Exception as e:      # noqa
+                    oracles.V(viol, 'C20', 'diagnostic(show=True) raises', exc=type(e).__name__, msg=str(e)[:200], family=fam)
+                plt.close('all')
     finally:
         plt.close('all')
         os.chdir(cwd0)
